@@ -242,7 +242,10 @@ func runJob(job *Job) *Result {
 				raceDelta()
 			}
 		}
-		res := eng.Exec(c, job)
+		// The engine works on a copy: code under test that writes into the bytes it was handed (a
+		// root given in memory) must not alter the case that is recorded, replayed and minimised.
+		// Within the run the copy is shared by all builds, like one *fs.File built several times.
+		res := eng.Exec(cloneCase(c), job)
 		res.ID, res.Seed = job.ID, c.Seed
 		if res.Verdict == "" {
 			res.Verdict = "ok"
